@@ -309,9 +309,44 @@ fn check_expr_chain(ctx: &mut Ctx, members: &[CT], b: B) {
     }
 }
 
+/// the condition a one-call history leaves in the holder, in the statement model's vocabulary (`Condition::add` replaces a
+/// nested, non-negated group of exactly one member by that member)
+fn conv(c: &CT) -> crate::stmt::Cond {
+    use crate::stmt::{ColRef, Cond, Ex, Item};
+    fn item(x: &CT) -> Item {
+        match x {
+            CT::Atom(n) => Item::E(Ex::Col(ColRef::Col(format!("a{n}")))),
+            g => { let c = conv(g); if !c.neg && c.items.len() == 1 { c.items[0].clone() } else { Item::C(c) } }
+        }
+    }
+    match c {
+        CT::Atom(_) => Cond { neg: false, any: false, items: vec![item(c)] },
+        CT::Group { any, neg, ms } => Cond { neg: *neg, any: *any, items: ms.iter().flatten().map(item).collect() },
+    }
+}
+
+/// the statement model's condition renderer (`rCond`, which `Props/C06Stmt` proves equal to the expression renderer applied
+/// to `to_simple_expr`) against the crate, on the statement built through the builder calls of `build`
+fn check_statement_model(ctx: &mut Ctx, t: &CT, b: B) {
+    use crate::stmt::{ColRef, Ex, Holder, Query as Q, SelItem, Select, TName, TRef, WinSel};
+    let sel = Select { selects: vec![SelItem { e: Ex::Col(ColRef::Col("c".into())), win: WinSel::None, alias: None }], from: vec![TRef::Named(TName { parts: vec!["t".into()], alias: None })],
+        wher: Holder::Cond(conv(t)), having: if matches!(t, CT::Group { neg: true, .. }) { Holder::Cond(conv(t)) } else { Holder::Empty }, ..Default::default() };
+    let recipe = Q::Sel(sel.clone()).sexp();
+    // built by the calls of the history, not by the recipe's own builder
+    let real = catch(|| { let mut q = Query::select(); q.column(Alias::new("c")).from(Alias::new("t"));
+        match t { CT::Atom(n) => { q.and_where(atom(*n)); } g => { q.cond_where(build(g)); } }
+        if matches!(t, CT::Group { neg: true, .. }) { q.cond_having(build(t)); }
+        crate::stmt::Real::Sel(q) });
+    let Some(real) = real else { return };
+    let r = crate::c01::render(&real, b);
+    let sq = recipe.clone();
+    ctx.count("kind.statement_model");
+    ctx.case_norm(format!("stmt {} {recipe}", b.name()), crate::c01::expect_line(&r), true, &move || format!("{} {}", b.name(), sq), crate::c01::strip_flags(false));
+}
+
 pub fn run(ctx: &mut Ctx) {
     let thorough = ctx.tier_thorough;
-    ctx.rule = format!("bounded-exhaustive: all condition trees of depth <= {} / width <= 2 (every any/all, every negate flag, empty groups, add_option(None) members) as 1-call histories on all 8 statement positions (SELECT WHERE / HAVING, UPDATE, DELETE, JOIN ON, CASE WHEN, ON CONFLICT target/action WHERE) x 3 backends, all ordered pairs of depth-1 trees as 2-call histories, then {} random histories (<= 4 calls, depth <= 4, width <= 3). Each: rendered predicate parsed by an independent SQL predicate parser and compared with the model's expression tree, and its 3-valued truth table (all 3^k assignments, k <= 4 atoms) compared with the AND of the supplied conditions. Non-trivial = non-empty history; distinct by request.", 2, if thorough { 60000 } else { 6000 });
+    ctx.rule = format!("bounded-exhaustive: all condition trees of depth <= {} / width <= 2 (every any/all, every negate flag, empty groups, add_option(None) members) as 1-call histories on all 8 statement positions (SELECT WHERE / HAVING, UPDATE, DELETE, JOIN ON, CASE WHEN, ON CONFLICT target/action WHERE) x 3 backends, all ordered pairs of depth-1 trees as 2-call histories, then {} random histories (<= 4 calls, depth <= 4, width <= 3). Every third tree (thorough: every tree) also as a whole statement against the Lean statement model's condition renderer (text, values). Each: rendered predicate parsed by an independent SQL predicate parser and compared with the model's expression tree, and its 3-valued truth table (all 3^k assignments, k <= 4 atoms) compared with the AND of the supplied conditions. Non-trivial = non-empty history; distinct by request.", 2, if thorough { 60000 } else { 6000 });
     if let Some(rp) = ctx.replay.clone() {
         // replay by history S-expression is not parsed back here; the random stream is deterministic by seed
         let _ = rp;
@@ -327,6 +362,7 @@ pub fn run(ctx: &mut Ctx) {
         // all positions for a slice, the WHERE position for all
         if thorough || i % 7 == 0 { check_history(ctx, &[t.clone()], &KINDS, &all_b); }
         else { check_history(ctx, &[t.clone()], &["select_where"], &[B::Sqlite]); }
+        if thorough || i % 3 == 0 { check_statement_model(ctx, t, all_b[i % 3]); }
     }
     let mut nb = 0;
     let small = enum_trees(1, 2, &mut nb, 3);
